@@ -21,6 +21,8 @@ structure Conf where
   fp : Option C02.Env := none
   ep : Option C03.Env := none
   map : Option C13.Env := none
+  ebmap : Option C13.Eb.Env := none
+  edmap : Option C13.Ed.Env := none
 
 def parseCfg (toks : List String) : Conf :=
   toks.foldl (fun c t =>
@@ -42,6 +44,10 @@ def dispatch (c : Conf) (op : String) (args : List String) (got : String) : Opti
     | some e => C03.handle e c.w op args got
     | none => none) <|> (C07.handle e01.cfg op args) <|> (C09.handle c.w c.size c.digs op args got) <|> (C14.handle op args) <|> (C15.handle c.w c.size op args got) <|> (C19.handle latch op args) <|> (match c.map with
     | some e => C13.handle e c.size c.w op args got
+    | none => none) <|> (match c.ebmap with
+    | some e => C13.Eb.handle e op args
+    | none => none) <|> (match c.edmap with
+    | some e => C13.Ed.handle e op args got
     | none => none)
 
 def processLine (c : Conf) (line : String) : String :=
@@ -101,6 +107,30 @@ partial def loop (h : IO.FS.Stream) (out : IO.FS.Stream) (c : Conf) : IO Unit :=
       | none =>
         out.putStrLn (if got == "err" then "ok ep_map_param-rejected" else "FAIL S model=[] spec=[parsable ep_map_param] got=[" ++ got ++ "]")
         loop h out { c with ep := none, map := none }
+    | _ => out.putStrLn "skip"; loop h out c
+  else if line.startsWith "ed_map_param " then
+    match line.splitOn " => " with
+    | [_, got] =>
+      match C13.Ed.parseEnv got with
+      | some e =>
+        let bad := C13.Ed.checkParam e
+        out.putStrLn (if bad.isEmpty then "ok ed_map_param" else "FAIL S model=[] spec=[" ++ String.intercalate ";" bad ++ "] got=[" ++ got ++ "]")
+        loop h out { c with edmap := some e }
+      | none =>
+        out.putStrLn (if got == "err" then "ok ed_map_param-rejected" else "FAIL S model=[] spec=[parsable ed_map_param] got=[" ++ got ++ "]")
+        loop h out { c with edmap := none }
+    | _ => out.putStrLn "skip"; loop h out c
+  else if line.startsWith "eb_map_param " then
+    match line.splitOn " => " with
+    | [_, got] =>
+      match C13.Eb.parseEnv got with
+      | some e =>
+        let bad := C13.Eb.checkParam e
+        out.putStrLn (if bad.isEmpty then "ok eb_map_param" else "FAIL S model=[] spec=[" ++ String.intercalate ";" bad ++ "] got=[" ++ got ++ "]")
+        loop h out { c with ebmap := some e }
+      | none =>
+        out.putStrLn (if got == "err" then "ok eb_map_param-rejected" else "FAIL S model=[] spec=[parsable eb_map_param] got=[" ++ got ++ "]")
+        loop h out { c with ebmap := none }
     | _ => out.putStrLn "skip"; loop h out c
   else if line.startsWith "fp_param " then
     -- the running library reports the active field; the derived constants are checked here
